@@ -86,6 +86,7 @@ CLAIMED.update({
    design="4/C09"),
  "C12": dict(
    text="Deductive proof of the resource lifecycle functions: CreateTopic/CreateSubscription refuse a live duplicate name and otherwise create exactly one live row; DeleteTopic/DeleteSubscription soft-delete exactly the named live row; findTopic returns the live row of that name; "
+        "the Get handlers succeed exactly for live resources of that name; the Create / Delete handlers refuse a duplicate, free the name and touch no other resource; a re-created resource inherits no subscriptions / no backlog (its row id is fresh and nothing references it); "
         "and of the four listing handlers (ListTopics, ListTopicSubscriptions, ListSubscriptions, ListSnapshots): every page entry is a live resource of exactly the requested project after the page token, pages are ascending by id, at most the effective page size, "
         "a full page contains every matching resource up to its last id and its token resumes strictly after it, a short page is complete and carries no token - so pages partition the listing exactly once for any page size. "
         "The page_sound/page_complete clauses refuted the pinned ListSnapshots (wrong name prefix; replayed; fixed in 9b08ba1).",
@@ -114,10 +115,12 @@ CLAIMED.update({
    note="Pull (its multi-transaction pull action is a trusted summary) is excluded from the error-leaves-state clause; StreamingPull's streamer and the assembly of the chain in grpc/server.go are not under contract. Dependencies are assumed panic-free on arguments satisfying their intrinsic preconditions. "+TRUST,
    design="4/C16"),
  "C17": dict(
-   text="Deductive proof that CreateSubscription.Execute / CreateTopic.Execute store exactly the configuration given; that UpdateSubscription / UpdateTopic change exactly the columns named by the update mask on exactly the named live row (loop over mask paths with per-column invariants on the "
+   text="Deductive proof of the create -> read round trip at the API: the CreateSubscription handler stores exactly the requested configuration with the documented defaults filled in (30 d expiration, 7 d retention, 5 attempts) and answers with what the stored row holds; "
+        "GetSubscription / GetTopic answer with exactly what the row holds (entity mappers proved field by field; a NULL column reads as the zero value); CreateTopic stores the labels given; "
+        "that CreateSubscription.Execute / CreateTopic.Execute store exactly the configuration given; that UpdateSubscription / UpdateTopic change exactly the columns named by the update mask on exactly the named live row (loop over mask paths with per-column invariants on the "
         "symbolic update builder) and that a listed path is applied even when it only clears optional configuration; that entTopicToGrpc returns the stored name and labels; and for the duration codec: Interval.Value stores exactly Go's duration text and Interval.Scan of that text gives back "
         "the same duration (String/ParseDuration assumed inverse), rejects text that is neither format, and keeps the old value on failure.",
-   note="Also proved with overflow checks on: adjustDuration adds value x scale exactly or fails (this refuted the pinned code on intervals beyond 292 years; replayed, fixed). Not under contract: the subscription mapper's full field map; PostgreSQL's reading of *negative* interval text (known, not repaired: the sign of the hours field is not applied to minutes and seconds; mmmbbb never stores negative intervals). "+TRUST,
+   note="Also proved with overflow checks on: adjustDuration adds value x scale exactly or fails (this refuted the pinned code on intervals beyond 292 years; replayed, fixed). Not under contract: the topic names shown in a subscription response (topic / dead-letter topic strings); PostgreSQL's reading of *negative* interval text (known, not repaired: the sign of the hours field is not applied to minutes and seconds; mmmbbb never stores negative intervals). "+TRUST,
    design="4/C17"),
 })
 CLAIMED["C19"] = dict(
